@@ -136,12 +136,15 @@ impl Config {
         // Use string values as-is. Serializing a string as YAML would add quotes to strings
         // which look like another YAML type (e.g. `'1'` or `'true'`), and the quotes would end
         // up in paths which are constructed from the value.
+        // Only the serialized form of non-string values is trimmed (serde_yaml terminates it with a
+        // newline); a string value must name the same directory as the same string given to
+        // `Config::new()`.
         let vstr = if let Some(s) = v.as_str() {
             s.to_string()
         } else {
-            serde_yaml::to_string(v)?
+            serde_yaml::to_string(v)?.trim().to_string()
         };
-        let vstr = vstr.trim();
+        let vstr = vstr.as_str();
         match k {
             "nodes_uri" => {
                 cfg_path
